@@ -107,6 +107,36 @@ np.seterr(all='ignore')
 warnings.simplefilter('ignore')
 os.chdir(tempfile.mkdtemp())
 """,
+    "plots": """
+import matplotlib
+matplotlib.use('Agg')
+import matplotlib.pyplot as plt
+plt.show = lambda *a, **k: None
+import nuspacesim
+from nuspacesim.utils.plot_function_registry import registry
+from nssmc import sim, own
+for nm in sorted(registry):
+    try:
+        with sim.owned(2, 'synchronous'), own.quiet():
+            nuspacesim.compute(sim.make_config(n=60, det_lat=-0.9, det_long=2.5, logE=9.5), to_plot=[nm])
+    except Exception:
+        pass
+    plt.close('all')
+# ... and the `nuspacesim show-plot` command on a results file (this is what draws the dashboard)
+import os, tempfile
+from click.testing import CliRunner
+import nuspacesim.apps.show_plot as SP
+d = tempfile.mkdtemp()
+with sim.owned(2, 'synchronous'), own.quiet():
+    t = nuspacesim.compute(sim.make_config(n=150, spectrum='power'))
+t.write(os.path.join(d, 'r.fits'), format='fits', overwrite=True)
+for args in (['--plotall'], ['-p', 'dashboard'], ['-p', 'dashboard']):
+    try:
+        CliRunner().invoke(SP.show_plot, [os.path.join(d, 'r.fits')] + args)
+    except Exception:
+        pass
+    plt.close('all')
+""",
     "kernel_scan": """
 import numpy as np, math
 from nuspacesim.simulation.eas_optical.cphotang import CphotAng
@@ -148,7 +178,10 @@ with own.RngStub(fn=lambda i, n: (np.arange(n) + 1.0) / (n + 1.0)).installed(), 
     out['spec'] = h(Spectra(sim.make_config(spectrum='power'))(7)[0])
     out['decay'] = h(*EAS(cfg).altDec(np.array([0.1, 0.5]), np.array([1.0, 0.99]), np.array([1e3, 1e6])))
 out['cloud'] = h(CloudTopHeight(sim.make_config(cloud='map'))(np.array([0.1, -1.0, 1.2]), np.array([3.0, -2.0, 0.5])))
-out['atm'] = h(P.us_std_atm_pressure_from_altitude(np.array([0.0, 11.0, 47.5, 100.0])), P.us_std_atm_altitude_from_pressure(np.array([101325.0, 5000.0, 1.0])))
+from nuspacesim.simulation.eas_optical import atmospheric_models as A
+zz = np.array([0.0, 5.0, 11.0, 11.01, 11.03, 20.0, 20.07, 32.2, 47.4, 51.5, 72.0, 72.6, 86.1, 87.17, 100.0, np.inf])
+pp = np.array([101325.0, 22632.0, 5474.0, 868.0, 110.0, 66.0, 3.9, 0.37, 1e-3, 0.0])
+out['atm'] = h(P.us_std_atm_pressure_from_altitude(zz), P.us_std_atm_altitude_from_pressure(pp), A.us_std_atm_pressure_from_altitude(zz), A.us_std_atm_altitude_from_pressure(pp), A.us_std_atm_density(np.array([0.0, 11.02, 50.0])))
 # accept / reject outcomes of configuration inputs
 acc = []
 for cls, kw in ((nc.Detector.InitialPos, {'altitude': '3 MHz'}), (nc.Detector.InitialPos, {'latitude': '2 km'}), (nc.Detector.Radio, {'low_frequency': '10 m', 'high_frequency': '1 m'}), (nc.Detector.Radio, {'low_frequency': 400.0}), (nc.Detector.Optical, {'telescope_effective_area': '2 m'}), (nc.Detector.InitialPos, {'altitude': '33 km'}), (nc.Detector.Radio, {'low_frequency': '0.1 GHz', 'high_frequency': '1 GHz'})):
